@@ -130,7 +130,11 @@ func c12Jobs(c *runner.Ctx, w *gen.World) []*c12Job {
 			xs = append(xs, s.X)
 		}
 		x, _ := model.Merge(xs, drops)
-		j := &c12Job{kind: "merge-public", segs: ins, drops: drops, bufSize: c12Buffers[r.Intn(len(c12Buffers))], mode: 1025, expected: x}
+		buf := c12Buffers[r.Intn(len(c12Buffers))]
+		if r.Intn(3) == 0 {
+			buf = r.Intn(8192) // any buffer size
+		}
+		j := &c12Job{kind: "merge-public", segs: ins, drops: drops, bufSize: buf, mode: 1025, expected: x}
 		if k == 1 {
 			j.kind = "merge-mode"
 			j.mode = gen.SmallModes[r.Intn(len(gen.SmallModes))]
@@ -287,7 +291,17 @@ func c12Run(c *runner.Ctx) {
 		}
 		c.Inc(fmt.Sprintf("jobs.%s", j.kind), 1)
 		if isMerge {
-			c.Inc(fmt.Sprintf("merge_buffer.%d", j.bufSize), 1)
+			if j.kind == "merge-public" {
+				known := false
+				for _, b := range c12Buffers {
+					known = known || b == j.bufSize
+				}
+				if known {
+					c.Inc(fmt.Sprintf("merge_buffer.%d", j.bufSize), 1)
+				} else {
+					c.Inc("merge_buffer.other", 1)
+				}
+			}
 		}
 		c.Nontrivial(hashAny(j.kind, j.bufSize, j.mode, j.ref), points)
 		if c.WantSample() {
